@@ -45,7 +45,7 @@ ALLOWED_AXIOMS = {
 }
 TRUSTED = [
     "translator/steady.py + translator/pyexpr.py (path/cell formulas, constants, stacked linear systems -> gen/SteadyGen.v)",
-    "the Levenberg solver of the neqs package and numpy.linalg.lstsq are ORACLES: the harness records their outputs by "
+    "the solvers offered by steadiers/solver_dispatcher.py (neqs Levenberg, scipy.optimize.root) and numpy.linalg.lstsq are ORACLES: the harness records their outputs by "
     "wrapping them from outside; theorems say what follows when the residual they report is below the tolerance",
     "numpy log/exp/power are black boxes: their values at the arguments the model needs are recorded per run and looked "
     "up by the float model",
@@ -58,7 +58,8 @@ ASSUMPTIONS = [
     "'at every date' is a theorem for flat paths, for residuals affine in time and for monomial = monomial equations on "
     "geometric paths; for general nonlinear growth models it is an assumption of balanced growth (every_date_partial) and "
     "is covered by the falsifier at several dates",
-    "log-variables have positive steady levels and changes",
+    "log-variables have positive steady levels and changes (a stored level or gross rate of exactly 0.0, i.e. exp underflow at a "
+    "degenerate point accepted under the solver's absolute tolerance, is counted as degenerate_log_paths, not judged)",
 ]
 MANIFEST = {
     "technique": "Coq proof over the reals of an executable model of the steady-state plumbing (cell formulas, constants and "
@@ -248,10 +249,15 @@ def _coef(rng, hi=0.3):
     return round(rng.choice([-1, 1]) * rng.uniform(0.05, hi), 3)
 
 
+SOLVERS = ("neqs_levenberg", "scipy_root")        # the solvers steadiers/solver_dispatcher.py offers
+
+
 def gen_spec(rng) -> dict:
-    fam = rng.choice(["stat", "stat", "stat", "trend", "trend", "bgp"])
+    fam = rng.choice(["stat", "stat", "stat", "trend", "trend", "bgp", "hard"])
     if fam == "bgp":
         spec = _gen_bgp(rng)
+    elif fam == "hard":
+        spec = _gen_hard(rng)
     else:
         spec = _gen_stat(rng, with_trend=(fam == "trend"))
     spec["family"] = fam
@@ -260,8 +266,122 @@ def gen_spec(rng) -> dict:
     spec["split"] = None if r < 0.3 else (r < 0.65)
     spec["nv"] = 2 if rng.random() < 0.3 else 1
     _gen_values(rng, spec)
-    _gen_plan(rng, spec)
+    if fam == "hard":
+        spec["plan"] = None
+        _hard_starts(rng, spec)
+    else:
+        _gen_plan(rng, spec)
+        if rng.random() < 0.12:
+            _far_starts(rng, spec)
+    _gen_solver(rng, spec)
     return spec
+
+
+def _gen_solver(rng, spec):
+    """solver / solver_settings / method name passed to the public call (None = not passed)"""
+    r = rng.random()
+    hard = spec["family"] == "hard"
+    if r < (0.25 if hard else 0.55):
+        spec["solver"] = None
+    elif r < (0.45 if hard else 0.7):
+        spec["solver"] = "neqs_levenberg"
+    else:
+        spec["solver"] = "scipy_root"
+    st = None
+    if rng.random() < 0.35:
+        tol = rng.choice([1e-12, 1e-11, 1e-10, 1e-9])
+        if spec["solver"] == "scipy_root":
+            st = {"tol": tol}
+            if rng.random() < 0.3:
+                st["method"] = "lm"
+        else:
+            st = rng.choice([{"func_tolerance": tol}, {"func_tolerance": tol, "max_iterations": rng.choice([50, 200, 1000])},
+                             {"max_iterations": rng.choice([30, 100, 500])}, {"step_tolerance": float("inf")}])
+    spec["solver_settings"] = st
+    spec["method"] = "solve_steady" if rng.random() < 0.5 else "steady"
+
+
+def _far_starts(rng, spec):
+    """starting values far from the steady state (the solver may or may not converge from there)"""
+    for nm in spec["vars"]:
+        for i in range(spec["nv"]):
+            if nm in (spec["plan"] or EMPTY_PLAN)["exogenize"] + (spec["plan"] or EMPTY_PLAN)["fix_level"]:
+                continue
+            lv = _r(rng, 0.02, 30.0) if nm in spec["logs"] else round(rng.choice([-1, 1]) * rng.uniform(0.01, 30.0), 3)
+            cur = spec["start"][nm][i]
+            spec["start"][nm][i] = [lv, (cur[1] if cur else None)]
+    spec["far_starts"] = True
+
+
+def _gen_hard(rng) -> dict:
+    """models that possess a steady state but whose residual norm has non-zero local minima / flat directions, started
+    at, near or far from the bad points:  x^3 - p x + q = a (x{-1} - x)  with one real root and a local minimum of |f| at
+    sqrt(p/3);  x exp(-x) = c (1 + x{-1} - x)  whose residual flattens out for large x"""
+    params, shocks, eqs = {}, [], []
+    kind = rng.choice(["cubic", "cubic", "xexp"])
+    x = rng.choice(["x", "s", "d"])
+    a = f"a_{x}"
+    params[a] = _r(rng, 0.2, 1.5)
+    info = {"kind": kind, "x": x}
+    if kind == "cubic":
+        p = rng.choice([2.0, 2.0, _r(rng, 1.0, 3.0, 2)])
+        q = 2.0 if p == 2.0 and rng.random() < 0.6 else round(2 * (p / 3) ** 1.5 * rng.uniform(1.3, 3.0), 2)
+        params["pp"], params["qq"] = p, q
+        lhs = add(sub(pw(var(x), integer(3)), mul(par("pp"), var(x))), par("qq"))
+        rhs = mul(par(a), sub(var(x, -1), var(x)))
+        info.update(p=p, q=q)
+    else:
+        c = _r(rng, 0.1, 0.3)
+        params["cc"] = c
+        lhs = mul(var(x), fexp(neg(var(x))))
+        rhs = mul(par("cc"), sub(add(integer(1), var(x, -1)), var(x)))
+        info.update(c=c)
+    eqs.append({"lhs": lhs, "rhs": rhs, "form": kind, "own": x})
+    names, logs = [x], []
+    for nm in rng.sample(["y", "z", "w"], rng.choice([0, 1, 1, 2])):
+        b, e = f"b_{nm}", f"e_{nm}"
+        params[b] = _r(rng, 0.3, 1.5)
+        shocks.append(e)
+        if rng.random() < 0.35:
+            logs.append(nm)
+            eqs.append({"lhs": var(nm), "rhs": mul(mul(par(b), pw(var(nm, -1), num(0.5))), fexp(add(mul(num(0.2), var(x)), shk(e)))),
+                        "form": "hardgeo", "own": nm})
+        else:
+            eqs.append({"lhs": var(nm), "rhs": sum_terms([mul(par(b), var(x, rng.choice([0, -1]))), mul(num(0.5), var(nm, -1)), shk(e)]),
+                        "form": "hardlin", "own": nm})
+        names.append(nm)
+    if not shocks:
+        shocks.append("e_" + x)
+        eqs[0]["rhs"] = add(eqs[0]["rhs"], shk("e_" + x))
+    order = list(range(len(eqs)))
+    rng.shuffle(order)
+    eqs = [eqs[i] for i in order]
+    decl = list(names)
+    rng.shuffle(decl)
+    return {"vars": decl, "logs": [v for v in decl if v in logs], "params": params, "shocks": shocks, "eqs": eqs,
+            "linear": False, "flat": rng.random() < 0.7, "trend": [], "followers": [], "hard": info}
+
+
+def _hard_starts(rng, spec):
+    h = spec["hard"]
+    for k in ("pp", "qq", "cc"):                      # the same hard equation in every variant
+        if k in spec["param_values"]:
+            spec["param_values"][k] = [spec["params"][k]] * spec["nv"]
+    for i in range(spec["nv"]):
+        r = rng.random()
+        if h["kind"] == "cubic":
+            bad = math.sqrt(h["p"] / 3)
+            if r < 0.35:
+                x0 = 1.0 if h["p"] == 2.0 else round(bad, 3)          # at / next to the local minimum of |f|
+            elif r < 0.55:
+                x0 = round(bad + rng.uniform(-0.3, 0.6), 3)
+            elif r < 0.8:
+                x0 = round(rng.uniform(-3.0, -1.0), 3)                # near the root
+            else:
+                x0 = round(rng.uniform(-4.0, 4.0), 3)
+        else:
+            x0 = round(rng.uniform(2.0, 8.0), 3) if r < 0.5 else round(rng.uniform(0.0, 0.8), 3)
+        spec["start"][h["x"]][i] = [x0, None]
 
 
 def _gen_stat(rng, with_trend: bool) -> dict:
@@ -633,13 +753,18 @@ class Recorder:
         from irispie.simultaneous import _steady as st
         from irispie.incidences import blazer as bz
         from irispie.fords import steadiers as fs
-        o_solver, o_nl, o_lin, o_wrt, o_blaze = sd.neqs_levenberg, st._steady_nonlinear, st._steady_linear, \
-            st._resolve_steady_wrt, bz.blaze
+        o_solvers = {nm: getattr(sd, nm) for nm in SOLVERS}
+        o_nl, o_lin, o_wrt, o_blaze = st._steady_nonlinear, st._steady_linear, st._resolve_steady_wrt, bz.blaze
         o_lf, o_lnf = fs.solve_steady_linear_flat, fs.solve_steady_linear_nonflat
         rec = self
 
-        def solver(ev, g0, solver_settings):
-            out = o_solver(ev, g0, solver_settings=solver_settings)
+        def wrap_solver(name):
+            def solver(ev, g0, solver_settings):
+                return solver_call(name, ev, g0, solver_settings)
+            return solver
+
+        def solver_call(name, ev, g0, solver_settings):
+            out = o_solvers[name](ev, g0, solver_settings=solver_settings)
             final = np.array(out[0], dtype=float)
             try:
                 resid = np.array(ev.eval_func(final), dtype=float).tolist()
@@ -653,7 +778,10 @@ class Recorder:
                 "final": final.tolist(),
                 "success": bool(out[1]),
                 "resid": resid,
-                "tol": float(solver_settings["func_tolerance"]),
+                # neqs: max-norm < func_tolerance; scipy_root: 2-norm < tol (hence max-norm < tol)
+                "tol": float(solver_settings["func_tolerance"] if "func_tolerance" in solver_settings
+                             else solver_settings["tol"]),
+                "solver": name,
             })
             return out
 
@@ -700,7 +828,8 @@ class Recorder:
                 return out
             return f
 
-        sd.neqs_levenberg = solver
+        for nm in SOLVERS:
+            setattr(sd, nm, wrap_solver(nm))
         st._steady_nonlinear = wrap_variant(o_nl, "nonlinear")
         st._steady_linear = wrap_variant(o_lin, "linear")
         st._resolve_steady_wrt = wrt
@@ -711,8 +840,9 @@ class Recorder:
             with contextlib.redirect_stdout(io.StringIO()):
                 yield self
         finally:
-            sd.neqs_levenberg, st._steady_nonlinear, st._steady_linear, st._resolve_steady_wrt, bz.blaze = \
-                o_solver, o_nl, o_lin, o_wrt, o_blaze
+            for nm in SOLVERS:
+                setattr(sd, nm, o_solvers[nm])
+            st._steady_nonlinear, st._steady_linear, st._resolve_steady_wrt, bz.blaze = o_nl, o_lin, o_wrt, o_blaze
             fs.solve_steady_linear_flat, fs.solve_steady_linear_nonflat = o_lf, o_lnf
 
 
@@ -743,10 +873,14 @@ def run_impl(spec) -> dict:
         kwargs["plan"] = plan
     if spec["split"] is not None:
         kwargs["split_into_blocks"] = spec["split"]
+    if spec.get("solver"):
+        kwargs["solver"] = spec["solver"]
+    if spec.get("solver_settings"):
+        kwargs["solver_settings"] = dict(spec["solver_settings"])
     out["before_all"] = [(_vals(v.levels), _vals(v.changes)) for v in m._variants]
     try:
         with rec.patched():
-            info = m.steady(return_info=True, unpack_singleton=False, **kwargs)
+            info = getattr(m, spec.get("method") or "steady")(return_info=True, unpack_singleton=False, **kwargs)
         out["info_success"] = [bool(i.get("success", True)) for i in info]
     except Exception as e:  # noqa
         out["error"] = f"steady: {type(e).__name__}: {str(e)[:300]}"
@@ -1224,6 +1358,9 @@ def check_property(spec: dict, out: dict) -> list:
         #    Dates other than t, t+1 are required only where "every date" follows from two dates (flat paths; residuals
         #    affine in time; geometric = geometric): for the other equations of growth models it is an assumption of
         #    balanced growth (every_date_partial) and misses are only counted
+        # a log-variable whose stored level or gross rate of change is exactly 0.0 (exp underflow at a degenerate point
+        # the solver accepted under its absolute tolerance) defines no geometric path: counted, not judged
+        degenerate = any(_unpack(levels, nm, i) == 0.0 or _unpack(changes, nm, i) == 0.0 for nm in spec["logs"])
         for j, e in enumerate(spec["eqs"]):
             st = e.get("steady", e)
             strict_all = spec["flat"] or e["form"] in EVERY_DATE_FORMS
@@ -1238,7 +1375,10 @@ def check_property(spec: dict, out: dict) -> list:
                     res, scale = float("nan"), 1.0
                 if not (abs(res) <= FALSIFY_RTOL * (1.0 + scale)):
                     soft = not (strict_all or t in (0, 1))
-                    fails.append({"key": ("every-date-partial:" if soft else "residual:") + shape, "variant": i, "soft": soft,
+                    if degenerate:
+                        soft = True
+                    fails.append({"key": ("degenerate-log-path:" if degenerate else "every-date-partial:" if soft
+                                          else "residual:") + shape, "variant": i, "soft": soft,
                                   "what": f"steady equation `{render(st['lhs'], False)} = {render(st['rhs'], False)}` does not hold "
                                           f"at date t{t:+d} on the path of the stored steady levels and changes",
                                   "observed": {"residual": res, "date": t, "levels": {k: _unpack(levels, k, i) for k in spec['vars']},
@@ -1396,7 +1536,9 @@ def correspondence(ctx) -> CorrResult:
     res.distribution = dist
     res.rule = ("one generated model with a steady state (stationary / unit root with drift / balanced growth with log-variables; "
                 "1-7 equations; linear or nonlinear; flat or growth; optional !! steady versions; random parameters and starting "
-                "values; optional steady plan; 1-2 variants; split_into_blocks None/True/False) run through Simultaneous.steady; one "
+                "values, some far from the steady state; models whose residual norm has non-zero local minima started at the bad points; "
+                "optional steady plan; 1-2 variants; split_into_blocks None/True/False; solver default / neqs_levenberg / scipy_root "
+                "with and without solver_settings; called as steady or solve_steady) run through the public method; one "
                 "case per parameter variant; non-trivial = at least one block was handed to the solver (nonlinear) or a linear "
                 "system was solved; distinct = distinct (equations, starting values, recorded solver output)")
     res.samples = [{"source": source_text(s), "plan": s["plan"], "flat": s["flat"], "linear": s["linear"],
@@ -1468,6 +1610,9 @@ def falsify(ctx, hints):
         info["completed"] += 1
         info["equation_date_checks"] += len(spec["eqs"]) * len(FALSIFY_DATES) * spec["nv"]
         for f in r["fails"]:
+            if f.get("soft") and f["key"].startswith("degenerate-log-path:"):
+                info["degenerate_log_paths"] = info.get("degenerate_log_paths", 0) + 1
+                continue
             if f.get("soft"):
                 info["every_date_partial_misses"] = info.get("every_date_partial_misses", 0) + 1
                 info.setdefault("every_date_partial_sample", {"source": source_text(spec), "what": f["what"],
